@@ -364,11 +364,11 @@ func (e *Evaluator) evalCaseMatch(value *Cell, exprs []Expr) (bool, map[string]*
 			if err != nil {
 				return false, nil, err
 			}
-			cmp, err := value.Value.Compare(&caseValue.Value)
+			equal, err := value.Value.Equals(&caseValue.Value)
 			if err != nil {
 				return false, nil, e.error(expr.Token(), err.Error())
 			}
-			if cmp == 0 {
+			if equal {
 				return true, nil, nil
 			}
 		case *ExprArray:
